@@ -20,6 +20,7 @@ import PS.Model.Enum.HeapSearch
 import PS.Model.Enum.UHeapSearch
 import PS.Proofs.Enum.Heapq
 import PS.Proofs.Enum.HeapSearch
+import PS.Proofs.Enum.HSSoundInit
 namespace PS.C02HS
 open PS PS.G
 
@@ -98,5 +99,60 @@ theorem finding_C02_F3 :
     (take E3 200 40 (Gen.new w3G) []).map (fun r => (r.2.1.length, r.2.2, r.2.1.contains lost)) = some (20, true, false) := by
   decide +kernel
 end F3
+
+/-! ### soundness of the machine as a state invariant (item 4), context-free grammars -/
+section Sound
+open PS.HS
+variable {S π : Type} [DecidableEq S]
+
+/-- the invariant: `HS.SInv E s` says that for every non-terminal `nt`
+    (1) every program of `hash_table_program[nt]` is derivable from `nt` (`gen`),
+    (2) every element of `heaps[nt]` is in `hash_table_program[nt]`,
+    (3) every value of `succ[nt]` is in `hash_table_program[nt]`;
+    `HS.GInv E g` adds, before the prologue has run, that the max-priority tables hold derivable
+    programs.  It holds for the fresh generator object … -/
+theorem C02_HS_inv_init (E : Env S Unit π) : GInv E (Gen.new E.G) := ginv_new E
+
+/-- … and every `next(generator)` keeps it and yields a program derivable from the start symbol
+    (any priority type, any threshold, any filter, `dropDeleted` either way; `RowsNodup`: a Python
+    dict has no repeated key) -/
+theorem C02_HS_sound_step (E : Env S Unit π) (hnd : RowsNodup E.G) (fuel : Nat) (g g' : Gen S Unit π)
+    (r : Option Prog) (hg : GInv E g) (h : HS.next E fuel g = some (g', r)) :
+    GInv E g' ∧ ∀ p, r = some p → gen E.G p E.G.start = true := next_sound E hnd fuel g g' r hg h
+
+/-- the inner step: `query(S, program)` keeps the table invariant and returns a program derivable from `S` -/
+theorem C02_HS_query_sound (E : Env S Unit π) (n : Nat) (s s' : St S Unit π) (nt : NT S Unit)
+    (p r : Option Prog) (hs : SInv E s) (h : query E n s nt p = some (s', r)) :
+    SInv E s' ∧ ∀ q, r = some q → gen E.G q nt = true := query_sound E hs h
+
+/-- **soundness**: whatever heap search / bucket search yields on a context-free grammar is a
+    member of the grammar (`program in grammar` of the implementation, by `contains_eq_gen`) -/
+theorem C02_HS_sound (E : Env S Unit π) (hnd : RowsNodup E.G) (fuel k : Nat) (g' : Gen S Unit π)
+    (out : List Prog) (b : Bool) (h : take E fuel k (Gen.new E.G) [] = some (g', out, b)) :
+    ∀ p ∈ out, contains E.G p = true := by
+  intro p hp
+  rw [contains_eq_gen]
+  exact (take_sound E hnd fuel k _ _ _ _ _ (ginv_new E) (by intro q hq; cases hq) h).2 p hp
+
+/-! non-vacuity: `S0 → 1 | + S1 S1`, `S1 → 1 | x` -/
+def cInt : Ty := .base "int"
+def cOne : Sym := Sym.prim "1" cInt
+def cX : Sym := Sym.var 0 cInt
+def cPlus : Sym := Sym.prim "+" (.arrow cInt (.arrow cInt cInt))
+def cG : TT Nat Unit := ⟨(cInt, (0, ())), [((cInt, (0, ())), [(cOne, ([], ())), (cPlus, ([(cInt, 1), (cInt, 1)], ()))]),
+                                          ((cInt, (1, ())), [(cOne, ([], ())), (cX, ([], ()))])]⟩
+def cW : AList (NT Nat Unit) (AList Sym Rat) :=
+  [((cInt, (0, ())), [(cOne, 1/2), (cPlus, 1/2)]), ((cInt, (1, ())), [(cOne, 1/4), (cX, 3/4)])]
+def cE : Env Nat Unit Rat := { G := cG, W := cW, ops := probOps 0, filter := fun _ => true }
+
+theorem cG_rows : RowsNodup cG := rowsNodup_of_all cG (by decide)
+
+/-- the machine yields the 5 programs of the grammar and stops -/
+example : (take cE 50 10 (Gen.new cG) []).map (fun r => (r.2.1.length, r.2.2)) = some (5, true) := by
+  decide +kernel
+
+example : ∀ g' out b, take cE 50 10 (Gen.new cG) [] = some (g', out, b) → ∀ p ∈ out, contains cG p = true :=
+  fun g' out b h => C02_HS_sound cE cG_rows 50 10 g' out b h
+end Sound
 
 end PS.C02HS
